@@ -26,6 +26,7 @@
 #include <opm/output/eclipse/Inplace.hpp>
 #include <opm/output/eclipse/RegionCache.hpp>
 #include <opm/io/eclipse/SummaryNode.hpp>
+#include <opm/io/eclipse/EclFile.hpp>
 #include <opm/input/eclipse/Schedule/Well/Connection.hpp>
 #include <opm/input/eclipse/Schedule/Well/WellConnections.hpp>
 #include <opm/output/data/Wells.hpp>
@@ -1145,22 +1146,37 @@ int runProp(uint64_t seed, bool thorough, const std::string& outdir) {
                         for (const auto& w : c.wells) {
                             auto it = wd.find(w.name);
                             if (it == wd.end()) continue;
+                            // shut wells contribute nothing, whatever their connection results say (as on the W, C, G, F levels)
+                            if (it->second.dynamicStatus == Well::Status::SHUT) {
+                                for (const auto& cn : it->second.connections) if (cn.rates.has(rk.p) && cn.rates.get(rk.p) != 0.0) { ++lvlStats["region.shut_well_with_connection_rates"]; break; }
+                                continue;
+                            }
                             const double f = known(w) ? w.wefac[s] * groupUp(w.group) : 1.0;
                             for (const auto& cn : it->second.connections) {
                                 bool mine = false;
                                 for (int k = w.k1; k <= w.k2; ++k) mine = mine || (cn.index == static_cast<std::size_t>(w.gidx(k)) && fipnumOf(w.gidx(k)) == r);
                                 if (!mine) continue;
                                 const double v = (cn.rates.has(rk.p) ? cn.rates.get(rk.p) : 0.0) * f;
-                                if ((v > 0) == rk.inj) {
-                                    expect += rk.inj ? v : -v;
-                                    if (v != 0.0 && it->second.dynamicStatus == Well::Status::SHUT) ++lvlStats["region.noted_shut_well_with_connection_rates_contributes"];
-                                }
+                                if ((v > 0) == rk.inj) expect += rk.inj ? v : -v;
                             }
                         }
                         chk(close(RV("FIPNUM", rk.key, r), expect * rk.f, 1e-11, 0.0), std::string("region.rate.") + rk.key,
                             at + "/FIPNUM" + std::to_string(r) + " " + rk.key + "=" + g17(RV("FIPNUM", rk.key, r)) + " expected " + g17(expect * rk.f));
                         ++lvlStats["region.rate"];
                         chk(RV("FIPNUM", rk.key, r) >= 0.0, "region.nonneg", at);
+                        {
+                            bool anyFlowing = false;
+                            for (const auto& w : c.wells) {
+                                auto it = wd.find(w.name);
+                                if (it == wd.end() || it->second.dynamicStatus == Well::Status::SHUT) continue;
+                                for (int k = w.k1; k <= w.k2; ++k) anyFlowing = anyFlowing || fipnumOf(w.gidx(k)) == r;
+                            }
+                            if (!anyFlowing) {
+                                chk(RV("FIPNUM", rk.key, r) == 0.0, std::string("region.shut_zero.") + rk.key,
+                                    at + "/FIPNUM" + std::to_string(r) + " every well with a connection in the region is SHUT or absent but " + rk.key + "=" + g17(RV("FIPNUM", rk.key, r)));
+                                ++lvlStats["region.shut_zero"];
+                            }
+                        }
                         sumNum[ki] += RV("FIPNUM", rk.key, r);
                     }
                     ++ki;
@@ -1243,6 +1259,26 @@ int runProp(uint64_t seed, bool thorough, const std::string& outdir) {
                     const double expect = before[std::string("F/") + tr.t] + F(tr.r) * dt;
                     chk(close(F(tr.t), expect), std::string("cumulative.") + tr.t, at + " got " + std::to_string(F(tr.t)) + " expected " + std::to_string(expect));
                 }
+            }
+        }
+        // --- units written to the SMSPEC file: polymer / brine connection vectors are mass rates and masses,
+        //     like the W/G/F ones ("values are reported in deck units": the label must be the unit of the value)
+        {
+            writer.add_timestep(st, c.nsteps, false);
+            writer.write(true);
+            EclIO::EclFile f(outdir + "/PCASE.SMSPEC");
+            f.loadData();
+            const auto kw = f.get<std::string>("KEYWORDS");
+            const auto un = f.get<std::string>("UNITS");
+            const std::string massRate = c.units == "FIELD" ? "LB/DAY" : (c.units == "LAB" ? "G/HR" : "KG/DAY");
+            const std::string mass = c.units == "FIELD" ? "LB" : (c.units == "LAB" ? "G" : "KG");
+            static const std::set<std::string> rateKw = {"CCIR", "CCPR", "CSIR", "CSPR", "WCIR", "WCPR", "WSIR", "WSPR", "GCIR", "GCPR", "GSIR", "GSPR", "FCIR", "FCPR", "FSIR", "FSPR"};
+            static const std::set<std::string> totKw = {"CCIT", "CCPT", "CSIT", "CSPT", "WCIT", "WCPT", "WSIT", "WSPT", "GCIT", "GCPT", "GSIT", "FCIT", "FCPT", "FSIT", "FSPT"};
+            std::set<std::string> seen;
+            for (size_t i = 0; i < kw.size() && i < un.size(); ++i) {
+                if (!seen.insert(kw[i]).second) continue;
+                if (rateKw.count(kw[i])) { chk(un[i] == massRate, "smspec.unit." + kw[i], tag + " unit of " + kw[i] + " in the SMSPEC file is [" + un[i] + "], the values are " + massRate); ++lvlStats["smspec.unit"]; }
+                if (totKw.count(kw[i])) { chk(un[i] == mass, "smspec.unit." + kw[i], tag + " unit of " + kw[i] + " in the SMSPEC file is [" + un[i] + "], the values are " + mass); ++lvlStats["smspec.unit"]; }
             }
         }
     }
